@@ -33,7 +33,27 @@ def sh(cmd, cwd, timeout=3600, env=None):
         return 124, "timeout"
 
 
+_locks = []
+
+
+def claim_dir():
+    """A worker directory nobody else uses: several invocations of this tool may run side by side, each worker holds
+    an flock on its directory's lock file for as long as it lives."""
+    import fcntl
+    while True:
+        for k in range(12):
+            f = open(f"/tmp/tv{k}.lock", "w")
+            try:
+                fcntl.flock(f, fcntl.LOCK_EX | fcntl.LOCK_NB)
+                _locks.append(f)
+                return k
+            except OSError:
+                f.close()
+        time.sleep(5)
+
+
 def setup(i):
+    i = claim_dir()
     base = f"/tmp/tv{i}"
     repo, verif = base + "/repo", base + "/verif"
     os.makedirs(base, exist_ok=True)
